@@ -7,7 +7,7 @@ helper, named an intermediate value or spelled an argument by keyword."""
 from __future__ import annotations
 
 import ast
-from typing import Dict, Tuple
+from typing import Dict, Optional, Tuple
 
 from .guards import GuardWalk, walk_function
 from .index import Func, RepoIndex
@@ -154,3 +154,19 @@ def step_wiring(index: RepoIndex) -> dict:
                 deep_copy_of(index, index.module('gym_gridverse/envs/transition_functions.py'),
                              w.expand(ds[0][1]), sp)
     return out
+
+
+def value_text(index: RepoIndex, func: Func) -> Optional[str]:
+    """source text of what a small function returns, in normal form: locals expanded, a chain
+    of `if c: return a` steps as a conditional expression, helpers and methods the pinned tree
+    did not have read through (pinned names stay as calls: they are the vocabulary the rules
+    are written in).  None when the body is not a pure expression."""
+    from .core import src
+    from .inline import inline_methods_by_name, inline_pure_exprs, pure_body_expr
+    from .pinned_names import FUNCTIONS, METHODS
+    e = pure_body_expr(func.node)
+    if e is None:
+        return None
+    e = inline_pure_exprs(index, func.module, func.cls, e, keep=tuple(FUNCTIONS | METHODS))
+    e = inline_methods_by_name(index, e, new_only=True)
+    return src(e)
